@@ -645,3 +645,83 @@ func IsUniform(tr Track, tl TrackLayout) bool {
 	}
 	return true
 }
+
+// Inflate inserts gap virtual bytes into the mdat payload of a file written by BuildProgressive (moov in front
+// of mdat, co64 for every track) in front of the chunk ChunkOrder[gapAtChunk] (gapAtChunk == len(ChunkOrder), or a
+// chunk without bytes: at the end of the payload): the mdat size field and the chunk offsets at or behind the
+// insertion point are patched. It returns the bytes in front of the inserted run and the bytes behind it; the
+// inflated file is prefix, gap bytes of anything, suffix.
+func Inflate(file []byte, truth *Truth, lay ProgLayout, gapAtChunk int, gap uint64) (prefix, suffix []byte, err error) {
+	if lay.MdatFirst {
+		return nil, nil, fmt.Errorf("mp4build.Inflate: moov must lie in front of mdat")
+	}
+	for _, tl := range lay.Tracks {
+		if !tl.Co64 {
+			return nil, nil, fmt.Errorf("mp4build.Inflate: co64 needed")
+		}
+	}
+	gp := truth.MdatPayloadStart + truth.MdatPayloadSize
+	if gapAtChunk >= 0 && gapAtChunk < len(lay.ChunkOrder) {
+		co := lay.ChunkOrder[gapAtChunk]
+		if truth.Tracks[co[0]].ChunkSize[co[1]] != 0 {
+			gp = truth.Tracks[co[0]].ChunkOffset[co[1]]
+		}
+	}
+	if gp < truth.MdatPayloadStart || gp > truth.MdatPayloadStart+truth.MdatPayloadSize {
+		return nil, nil, fmt.Errorf("mp4build.Inflate: insertion point %d outside the payload", gp)
+	}
+	p := append([]byte(nil), file...)
+	hdr := truth.MdatPayloadStart - truth.MdatStart
+	newPayload := truth.MdatPayloadSize + gap
+	be32 := func(b []byte, v uint32) { b[0], b[1], b[2], b[3] = byte(v>>24), byte(v>>16), byte(v>>8), byte(v) }
+	be64 := func(b []byte, v uint64) { be32(b, uint32(v>>32)); be32(b[4:], uint32(v)) }
+	rd32 := func(b []byte) uint32 { return uint32(b[0])<<24 | uint32(b[1])<<16 | uint32(b[2])<<8 | uint32(b[3]) }
+	rd64 := func(b []byte) uint64 { return uint64(rd32(b))<<32 | uint64(rd32(b[4:])) }
+	if hdr == 8 {
+		if newPayload+8 > 0xffffffff {
+			return nil, nil, fmt.Errorf("mp4build.Inflate: payload %d does not fit a 32-bit size field", newPayload)
+		}
+		be32(p[truth.MdatStart:], uint32(newPayload+8))
+	} else {
+		be64(p[truth.MdatStart+8:], newPayload+16)
+	}
+	// co64 boxes: positional walk moov/trak/mdia/minf/stbl/co64
+	path := []string{"moov", "trak", "mdia", "minf", "stbl", "co64"}
+	var rec func(lo, hi, depth int) error
+	found := 0
+	rec = func(lo, hi, depth int) error {
+		for q := lo; q+8 <= hi; {
+			size := int(rd32(p[q:]))
+			h := 8
+			if size == 1 && q+16 <= hi {
+				size, h = int(rd64(p[q+8:])), 16
+			}
+			if size < h || q+size > hi {
+				return fmt.Errorf("mp4build.Inflate: box walk")
+			}
+			if string(p[q+4:q+8]) == path[depth] {
+				if depth == len(path)-1 {
+					found++
+					n := int(rd32(p[q+12:]))
+					for i := 0; i < n; i++ {
+						at := q + 16 + 8*i
+						if o := rd64(p[at:]); o >= gp {
+							be64(p[at:], o+gap)
+						}
+					}
+				} else if err := rec(q+h, q+size, depth+1); err != nil {
+					return err
+				}
+			}
+			q += size
+		}
+		return nil
+	}
+	if err := rec(0, int(truth.MdatStart), 0); err != nil {
+		return nil, nil, err
+	}
+	if found != len(lay.Tracks) {
+		return nil, nil, fmt.Errorf("mp4build.Inflate: %d co64 boxes for %d tracks", found, len(lay.Tracks))
+	}
+	return p[:gp], p[gp:], nil
+}
